@@ -109,6 +109,17 @@ def compare_slots(rec):
     return all_slots(rec._desc)
 
 
+def slot_value(rec, name):
+    """Value of a slot; for a grouped record the flat value = that of the first member declaring the field (read from the
+    member itself: the group's own attributes 'name', 'records', ... shadow member fields of those names, C15's finding)."""
+    if is_grouped(rec):
+        for m in rec.records:
+            if name in m.__slots__:
+                return getattr(m, name)
+        raise AttributeError(name)
+    return getattr(rec, name)
+
+
 def record_problem(rec):
     """-> None (mappable) or (reason, index of the first slot that cannot be mapped, in slot order)."""
     if is_grouped(rec):
@@ -158,7 +169,7 @@ def record_diffs(written, read):
     if not is_grouped(written) and tuple(written.__slots__) != tuple(read.__slots__):
         return ["slots %r != %r" % (written.__slots__, read.__slots__)]
     for t, n in compare_slots(written):
-        w, r = getattr(written, n), getattr(read, n)
+        w, r = slot_value(written, n), getattr(read, n)
         if not value_equal(t, w, r):
             out.append("%s (%s): written %s, read %s" % (n, t, _show(t, w), _show(t, r)))
     return out
@@ -217,8 +228,8 @@ def raw_diffs(written, raw):
         out.append("raw record has fields %r, expected %r" % (sorted(raw.keys()), sorted(n for _, n in slots)))
         return out
     for t, n in slots:
-        if not raw_value_equal(t, getattr(written, n), raw[n]):
-            out.append("%s (%s): written %s, raw %r" % (n, t, _show(t, getattr(written, n)), raw[n] if not isinstance(raw[n], (bytes, str)) or len(raw[n]) < 80 else raw[n][:80]))
+        if not raw_value_equal(t, slot_value(written, n), raw[n]):
+            out.append("%s (%s): written %s, raw %r" % (n, t, _show(t, slot_value(written, n)), raw[n] if not isinstance(raw[n], (bytes, str)) or len(raw[n]) < 80 else raw[n][:80]))
     return out
 
 
